@@ -54,7 +54,7 @@ ASSUMPTIONS = [
     "global grids are fed as SpatiallyAdaptiveSingleDimensions2 feeds them: sorted python lists incl. both domain ends, "
     "integer tree levels (ends 0, one level-1 point, child level = max(neighbour levels)+1), >= 3 points",
     "GlobalBSplineGrid: tree depth <= 11 (quick) / 13 (thorough) because the class materialises 2^level entries per "
-    "level. The unique-solvability clause (sigma_min > 1e-12 sigma_max) is asserted for every Lagrange grid, every "
+    "level. The unique-solvability clause (sigma_min > 10*n*eps*sigma_max, i.e. not singular to working precision) is asserted for every Lagrange grid, every "
     "local grid and for GlobalBSplineGrid on arithmetic-midpoint (ratio 0.5) trees - the only trees the library itself "
     "produces for it (get_mid_point = 0.5(start+end); missing hierarchy points are completed with arithmetic "
     "midpoints, exterior knots are start+i*h); on weighted or relabelled B-spline trees (a strongly graded 0.2-ratio tree of depth 11 "
@@ -342,7 +342,7 @@ class _Ctx(object):
             elif k == "relabel":
                 rr = np.random.default_rng(int(r["rng"]))
                 cur = dict(trees=[(list(t[0]), relabel(t[0], rr, self.family == "bspline")) for t in cur["trees"]],
-                           nonmid=True)
+                           nonmid=True, relabelled=True)
             else:
                 raise ValueError(k)
             res.append((k, cur))
@@ -360,6 +360,7 @@ class _Ctx(object):
         else:
             self.trees = config["trees"]
             self.nonmid = config["nonmid"]
+            self.relabelled = bool(config.get("relabelled", False))
             self.lv = [max(t[1]) for t in self.trees]
 
     def setup(self):
@@ -554,9 +555,15 @@ def collocation_clauses(out, sub, cx):
             return None
         sv = np.linalg.svd(M, compute_uv=False)
         c = float(sv[0] / sv[-1]) if sv[-1] > 0 else float("inf")
-        if not sv[-1] > SING_REL * sv[0]:
+        # singular to working precision: sigma_min <= 10 * n * eps * sigma_max (an ill-conditioned but regular matrix of a
+        # strongly graded / relabelled tree, e.g. ratio 7.7e-13 at level 7, is not a violation of unique solvability)
+        if not sv[-1] > 10 * len(sv) * np.finfo(float).eps * sv[0]:
             if cx.kind == "global" and cx.family == "bspline" and cx.weighted_tree():
                 out.cls("weighted-bspline-tree-singular-to-working-precision(counted)")
+            elif cx.kind == "global" and getattr(cx, "relabelled", False):
+                # a relabelled (rotated) tree over a strongly graded point set: the matrix is regular in exact arithmetic but
+                # its condition exceeds 1/eps; double precision cannot decide unique solvability -> counted, not reported
+                out.cls("relabelled-tree-singular-to-working-precision(counted)")
             else:
                 out.bad("%s/solvable/%s-%s" % (sub, cx.family, cx.mode),
                         "%s: dimension %d: collocation matrix (%d points) has singular values %.3g .. %.3g"
